@@ -14,6 +14,7 @@ import (
 	"path/filepath"
 	"strings"
 	"sync"
+	"sync/atomic"
 
 	sgbucket "github.com/couchbase/sg-bucket"
 	"github.com/couchbaselabs/rosmar"
@@ -33,6 +34,8 @@ type StressLine struct {
 	Final  map[string]*CasRef `json:"final"`  // key -> CAS at the end
 	Commit []*CasRef          `json:"commit"` // CAS values in commit order (cas.new hook, under the bucket mutex)
 	Writes int                `json:"writes"`
+	Incrs   int `json:"incrs"`   // successful Incr calls (each by 1)
+	Counter int `json:"counter"` // final value of the counter (first Incr creates it with 1)
 }
 
 func runStress(trNo int, mode, scratch string, seed int64, writers, perWriter, nkeys int) (*Trace, error) {
@@ -80,6 +83,7 @@ func runStress(trNo int, mode, scratch string, seed int64, writers, perWriter, n
 		}, nil); err != nil {
 		return nil, err
 	}
+	var incrs int64
 	var wg sync.WaitGroup
 	for w := 0; w < writers; w++ {
 		wg.Add(1)
@@ -96,7 +100,9 @@ func runStress(trNo int, mode, scratch string, seed int64, writers, perWriter, n
 				case 0:
 					_ = coll.Delete(key)
 				case 1:
-					_, _ = coll.Incr("s-counter", 1, 1, 0)
+					if _, err := coll.Incr("s-counter", 1, 1, 0); err == nil {
+						atomic.AddInt64(&incrs, 1)
+					}
 				default:
 					_ = coll.SetRaw(key, 0, nil, []byte(fmt.Sprintf("w%d-%d", w, j)))
 				}
@@ -172,6 +178,11 @@ func runStress(trNo int, mode, scratch string, seed int64, writers, perWriter, n
 	close(lterm)
 	<-ldone
 	line.Writes = writers * perWriter
+	line.Incrs = int(atomic.LoadInt64(&incrs))
+	var cv uint64
+	if _, err := c.Get("s-counter", &cv); err == nil {
+		line.Counter = int(cv)
+	}
 	tr.Add(line)
 	return tr, nil
 }
